@@ -70,13 +70,13 @@ Lemma lexf_app a b ta tb :
   lexf a = Some ta -> lexf b = Some tb -> lexf (a ++ b) = Some (ta ++ tb).
 Proof.
   unfold lexf. rewrite lex_run_app. destruct (lex_run a (LTop P0)) as [sa ea].
-  destruct sa as [p| | | | | | |]; try discriminate. intros Ha. inversion Ha; subst. clear Ha.
+  destruct sa as [p| | | | | | | | | |]; try discriminate. intros Ha. inversion Ha; subst. clear Ha.
   destruct b as [|c b].
   - simpl. intros Hb. inversion Hb; subst. rewrite !app_nil_r. reflexivity.
   - cbn [lex_run lex_step].
     destruct (top_step P0 c) as [s1 e1] eqn:E1.
     destruct (lex_run b s1) as [s2 e2] eqn:E2.
-    destruct s2 as [p2| | | | | | |]; try discriminate. intros Hb. inversion Hb; subst. clear Hb.
+    destruct s2 as [p2| | | | | | | | | |]; try discriminate. intros Hb. inversion Hb; subst. clear Hb.
     assert (Hne : s1 <> LFail) by (intros ->; rewrite lex_run_fail in E2; discriminate).
     rewrite (top_step_flush p c s1 e1 E1 Hne), E2. f_equal.
     repeat rewrite <- app_assoc. reflexivity.
@@ -390,6 +390,38 @@ Proof.
   - rewrite rev_app_distr. simpl. discriminate.
 Qed.
 
+(* plainly written patterns have no named groups *)
+Lemma names_of_items its : forall rest, names_of (map TItem its ++ rest) = names_of rest.
+Proof. induction its as [|it its IH]; intros rest; [reflexivity|]. simpl. apply IH. Qed.
+
+Lemma names_of_open_items its rest :
+  names_of (TOpen :: map TItem its ++ TClose :: rest) = None :: names_of rest.
+Proof.
+  assert (E : names_of (map TItem its ++ TClose :: rest) = names_of rest) by (rewrite names_of_items; reflexivity).
+  destruct its as [|it its]; simpl in *; [reflexivity|rewrite E; reflexivity].
+Qed.
+
+Lemma plain_names_none : forall segs rest,
+  forallb is_none (names_of (flat_map seg_toks segs ++ rest)) = forallb is_none (names_of rest).
+Proof.
+  induction segs as [|sg segs IH]; intros rest; [reflexivity|]. destruct sg as [c e|b its].
+  - simpl. apply IH.
+  - cbn [flat_map seg_toks]. rewrite <- app_assoc.
+    change ((TOpen :: map TItem its ++ [TClose]) ++ ?x) with (TOpen :: ((map TItem its ++ [TClose]) ++ x)).
+    rewrite <- app_assoc. change ([TClose] ++ ?x) with (TClose :: x).
+    rewrite names_of_open_items. simpl. apply IH.
+Qed.
+
+Lemma plain_names_ok segs : Forall seg_ok segs ->
+  names_okb (pat_names (pat_text segs)) = true /\ names_okb (pat_names (pat_text segs ++ [36])) = true.
+Proof.
+  intros Hok. unfold pat_names, names_okb. split.
+  - rewrite (head_not_caret' segs Hok), (lexf_segs segs Hok).
+    pose proof (plain_names_none segs []) as H. rewrite app_nil_r in H. rewrite H. reflexivity.
+  - rewrite (head_not_caret segs [] Hok).
+    rewrite (lexf_app (pat_text segs) [36] _ [TDollar] (lexf_segs segs Hok) eq_refl), plain_names_none. reflexivity.
+Qed.
+
 (* ------------------------------------------------------------------ *)
 (* PathMatches(text)                                                     *)
 (* ------------------------------------------------------------------ *)
@@ -419,11 +451,12 @@ Proof.
   { intros pm _ Htpl args u Hu. unfold pm_reverse. rewrite Htpl.
     rewrite (spec_url_len _ _ _ Hu), Nat.eqb_refl. simpl.
     rewrite (pyformat_frags segs [] args u Hu). reflexivity. }
+  destruct (plain_names_ok segs Hok) as [Hn1 Hn2].
   destruct (ends_dollar (pat_text segs)) eqn:Ed.
   - (* last segment is an escaped dollar: no anchor is appended *)
     destruct (ends_dollar_last segs Hok Ed) as [segs' Hs].
     unfold rx_parse. rewrite (head_not_caret' segs Hok), (lexf_segs segs Hok).
-    rewrite <- (app_nil_r (flat_map seg_toks segs)), build_segs. cbn [build]. rewrite app_nil_r, rev_involutive.
+    rewrite <- (app_nil_r (flat_map seg_toks segs)), build_segs. cbn [build]. rewrite app_nil_r, rev_involutive, Hn1.
     eexists. split; [reflexivity|]. split; [reflexivity|]. split; [reflexivity|]. apply Hrev; [reflexivity|]. cbn [pm_tpl rx_pieces].
     apply find_groups_text; [exact Hok|]. rewrite (head_not_caret' segs Hok).
     unfold strip_last_dollar. rewrite Hs at 1. rewrite pat_text_snoc, rev_app_distr. simpl.
@@ -435,7 +468,7 @@ Proof.
     unfold rx_parse.
     rewrite (head_not_caret segs [] Hok).
     rewrite (lexf_app (pat_text segs) [36] _ [TDollar] (lexf_segs segs Hok) eq_refl).
-    rewrite build_segs. cbn [build]. rewrite app_nil_r, rev_involutive.
+    rewrite build_segs. cbn [build]. rewrite app_nil_r, rev_involutive, Hn2.
     eexists. split; [reflexivity|]. split; [reflexivity|]. split; [reflexivity|]. apply Hrev; [reflexivity|]. cbn [pm_tpl rx_pieces].
     apply find_groups_text; [exact Hok|]. rewrite (head_not_caret segs [] Hok).
     unfold strip_last_dollar. rewrite rev_app_distr. simpl.
